@@ -52,7 +52,7 @@ caught = {}
 lr = os.path.join(root, 'selftest', 'last_run.txt')
 if os.path.exists(lr):
     for l in open(lr):
-        m = re.match(r'(CAUGHT|MISSED) (C\d+(?:-r\d)?)[: ]*(.*)', l)
+        m = re.match(r'(CAUGHT|MISSED|NEUTRAL|FALSE-ALARM) (C\d+(?:-r\d\w?)?)(?: \[replayed=\d+\])?[: ]*(.*)', l)
         if m:
             caught[m.group(2)] = (m.group(1), m.group(3).strip())
 rows = ["| property | seeded change (files) | needs | reported by |", "|---|---|---|---|"]
@@ -67,6 +67,9 @@ for sid in sorted(os.listdir(os.path.join(root, 'seeded'))):
     need = need[:150] + ('…' if len(need) > 150 else '')
     st, obs = caught.get(sid, ('?', ''))
     obl = ' '.join(obs.split()[:2])
+    if st == 'NEUTRAL':
+        rows.append(f"| {sid} | {summ} (`{', '.join(m.get('files_changed', []))}`) | {need} | neutral at HEAD (neutralised by a fix commit): check stays quiet, as it must |")
+        continue
     rows.append(f"| {sid} | {summ} (`{', '.join(m.get('files_changed', []))}`) | {need} | {st.lower()}: `{obl}` |")
 text = block(text, 'SEEDS', '\n'.join(rows))
 open(os.path.join(root, 'DESIGN.md'), 'w').write(text)
